@@ -64,6 +64,18 @@ claim(
     "DESIGN.md section 4, C06",
 )
 
+claim(
+    "C18",
+    "symbolic evaluation of _read_config over every section shape up to depth 3; CFG check-after-last-write and unconditional-validation rules; "
+    "provenance of the resolved config list; doc/code table agreement (OPTIONS.md vs argparse, internal-default vs vela.ini); ini consumability",
+    "Decides clauses a-f of DESIGN.md 4/C18: resolved config paths reach the reader; child overrides parent transitively and self/unknown parents are "
+    "rejected for all chain shapes; CLI arena cache size overrides the file whenever given; every memory-area / size validation is unconditional, after "
+    "the last write and against the documented legal set; unknown sections raise; documented defaults/choices equal the coded ones; the bundled ini is "
+    "consumable. Known findings F15, F16a-d are genuine deviations of this fork. Does NOT decide numeric validity of arbitrary .ini values or OS path handling.",
+    "Trusted: ConfigParser has_section/has_option/get semantics (modelled); OPTIONS.md block format; legal memory areas frozen from the documentation.",
+    "DESIGN.md section 4, C18",
+)
+
 
 def build():
     checks = []
